@@ -148,6 +148,9 @@ def check_linear(run_, tables, ex, jnp, jax, rng, tier):
             want = np.asarray(ex.ifft(jnp.asarray(uh * (lam * np.exp(lam * dt))[None]), num_spatial_dims=D, num_points=N))
             if not np.all(np.isfinite(got)) or maxabs(got - want) > 1e-9 * (1 + maxabs(want)):
                 run_.violation(dict(key, what="d/d(dt)"), {"err": maxabs(got - want), "scale": maxabs(want)})
+            gr = float(jax.grad(lambda t: jnp.sum(f_dt(t) * jnp.asarray(w)))(jnp.asarray(dt)))
+            if not np.isfinite(gr) or abs(gr - float(np.sum(want * w))) > 1e-9 * (1 + abs(gr) + np.sum(np.abs(w)) * maxabs(want)):
+                run_.violation(dict(key, what="reverse-mode d/d(dt) != <w, exact derivative>"), {"grad": gr, "exact": float(np.sum(want * w))})
             # d / d coefficient: every symbol is linear in the PDE coefficients
             for arg, val in kw.items():
                 if isinstance(val, bool) or not isinstance(val, (float, tuple)):
@@ -174,21 +177,30 @@ def check_linear(run_, tables, ex, jnp, jax, rng, tier):
                     run_.evaluations += 1
                     if not np.all(np.isfinite(got)) or maxabs(got - want) > 1e-9 * (1 + maxabs(want)):
                         run_.violation(dict(key, what=f"d/d({nm})"), {"err": maxabs(got - want), "scale": maxabs(want)})
+                    gr = float(jax.grad(lambda x: jnp.sum(f_c(x) * jnp.asarray(w)))(jnp.asarray(x0)))
+                    fw = float(np.sum(want * w))
+                    if not np.isfinite(gr) or abs(gr - fw) > 1e-9 * (1 + abs(fw) + np.sum(np.abs(w)) * maxabs(want)):
+                        run_.violation(dict(key, what=f"reverse-mode d/d({nm}) != <w, exact derivative>"), {"grad": gr, "exact": fw})
 
 
 def sweepable(cls):
+    """(name, kwargs factory, evaluation point) for every differentiable constructor argument: float arguments at their default (also when
+    the default is exactly 0.0: an eigenvalue that vanishes at the evaluation point is where guarded / special-cased code paths sit) and at
+    0.5 if the default is zero; coefficient tuples: the zeroth-order entry and the last non-zero entry."""
     out = []
     for k, v in inspect.signature(cls.__init__).parameters.items():
         if k in ("dealiasing_fraction", "circle_radius"):
             continue
         if isinstance(v.default, float):
-            out.append((k, (lambda name: (lambda x: {name: x}))(k), v.default if v.default != 0.0 else 0.5))
+            mk = (lambda name: (lambda x: {name: x}))(k)
+            out.append((k, mk, v.default))
+            if v.default == 0.0:
+                out.append((k + "@0.5", mk, 0.5))
         elif isinstance(v.default, tuple) and v.default and all(isinstance(x, (int, float)) for x in v.default):
             d = v.default
             nz = [i for i, x in enumerate(d) if x != 0.0]
-            i = nz[-1] if nz else len(d) - 1
-            out.append((f"{k}[{i}]", (lambda name, d, i: (lambda x: {name: tuple(x if j == i else float(y) for j, y in enumerate(d))}))(k, d, i),
-                        float(d[i]) if d[i] != 0.0 else 0.1))
+            for i in sorted({0, nz[-1] if nz else len(d) - 1}):
+                out.append((f"{k}[{i}]", (lambda name, d, i: (lambda x: {name: tuple(x if j == i else float(y) for j, y in enumerate(d))}))(k, d, i), float(d[i])))
     return out
 
 
@@ -201,8 +213,8 @@ def check_semilinear(run_, tab, tables, ex, jnp, jax, rng, tier):
         D = registry.dims_of(name)[0]
         N = sizes[D]
         L, dt = 3.0, 0.02
-        orders = (1, 2, 3, 4) if tier != "quick" else ((2, 4) if len(name) % 2 else (1, 3))
-        for p in orders + (0,):
+        orders = (1, 2, 3, 4) if tier != "quick" else ((1, 2, 3, 4)[names.index(name) % 4],)
+        for p in orders + ((0,) if tier != "quick" or names.index(name) % 3 == 0 else ()):
             key = {"kind": "semilinear", "cls": name, "D": D, "N": N, "order": p}
             st = registry.make(name, D, N, L=L, dt=dt, order=p)
             C = st.num_channels
@@ -267,6 +279,10 @@ def check_semilinear(run_, tab, tables, ex, jnp, jax, rng, tier):
                 continue
             # ---- d/d(dt) and d/d(coefficient): against central differences of the primal code
             targets = [("dt", None, dt)] + [(a, mk, x0) for a, mk, x0 in sweepable(cls)]
+            if tier == "quick" and len(targets) > 3:        # rotate through the arguments: dt plus two coefficients per class
+                r0 = names.index(name) % (len(targets) - 1)
+                rest = targets[1:]
+                targets = [targets[0]] + [rest[(r0 + i) % len(rest)] for i in range(2)]
             for nm, mk, x0 in targets:
                 def f_p(x, nm=nm, mk=mk):
                     if nm == "dt":
@@ -278,7 +294,7 @@ def check_semilinear(run_, tab, tables, ex, jnp, jax, rng, tier):
                 except Exception as e:  # noqa: BLE001
                     run_.violation(dict(key, what=f"d/d({nm}) raised"), {"exception": f"{type(e).__name__}: {str(e)[:200]}"})
                     continue
-                h = 1e-3 * max(abs(x0), 1e-2)
+                h = 1e-3 * abs(x0) if x0 != 0 else 1e-4
                 fdp = fd6(f_p, x0, h)
                 sc = 1 + maxabs(fdp)
                 run_.evaluations += 1
@@ -308,6 +324,51 @@ def check_semilinear(run_, tab, tables, ex, jnp, jax, rng, tier):
                 run_.violation(dict(key, what="vjp through rollout is not the adjoint"), {"lhs": lhs, "rhs": rhs})
 
 
+NULL_CASES = [
+    # (class, D, constructor kwargs, differentiated argument as kwargs factory, evaluation point): an eigenvalue of the linear operator is
+    # exactly zero at the evaluation point AND the nonlinear term feeds that mode (non-zero mean of N), for every order
+    ("GeneralNonlinearStepper", 1, dict(nonlinear_coefficients=(-0.7, -0.3, 0.1)), lambda x: dict(linear_coefficients=(x, 0.0, 0.02)), 0.0),
+    ("GeneralPolynomialStepper", 1, dict(polynomial_coefficients=(0.0, 0.0, -1.0)), lambda x: dict(linear_coefficients=(x, 0.0, 0.02)), 0.0),
+    ("GeneralPolynomialStepper", 2, dict(polynomial_coefficients=(0.3, 0.0, -1.0)), lambda x: dict(linear_coefficients=(x, 0.0, 0.02)), 0.0),
+    ("AllenCahn", 1, dict(diffusivity=0.02), lambda x: dict(first_order_coefficient=x), 0.0),
+    ("FisherKPP", 1, dict(diffusivity=0.02), lambda x: dict(reactivity=x), 0.0),
+    ("GrayScott", 1, dict(kill_rate=0.06), lambda x: dict(feed_rate=x), 0.0),
+    ("NavierStokesVelocity", 3, dict(diffusivity=0.05), lambda x: dict(drag=x), 0.0),
+    ("KuramotoSivashinsky", 1, dict(), lambda x: dict(second_order_scale=x), 0.0),
+    ("NormalizedPolynomialStepper", 1, dict(normalized_polynomial_coefficients=(0.0, 0.0, -0.01)), lambda x: dict(normalized_linear_coefficients=(x, 0.0, 1e-5)), 0.0),
+]
+
+
+def check_null_eigenvalues(run_, ex, jnp, jax, rng, tier):
+    sizes = {1: 12, 2: 6, 3: 4}
+    for ci, (name, D, kw, mk, x0) in enumerate(NULL_CASES):
+        if name not in registry.stepper_classes():
+            continue
+        N = sizes[D]
+        for p in ((1, 2, 3, 4) if tier != "quick" else (2, (1, 3, 4)[ci % 3])):
+            key = {"kind": "null-eigenvalue", "cls": name, "D": D, "N": N, "order": p}
+            run_.case(("null", name, D, p))
+
+            def make(x, name=name, D=D, N=N, p=p, kw=kw, mk=mk):
+                return registry.make(name, D, N, L=3.0, dt=0.2, order=p, **{**kw, **mk(x)})
+            C = make(x0).num_channels
+            u = jnp.asarray(rng.standard_normal((C,) + (N,) * D) * 0.3 + 0.6)
+            w = rng.standard_normal((C,) + (N,) * D)
+            f = lambda x: make(x)(u)  # noqa: E731
+            try:
+                fwd = np.asarray(jax.jvp(f, (jnp.asarray(x0),), (jnp.asarray(1.0),))[1])
+                gr = float(jax.grad(lambda x: jnp.sum(f(x) * jnp.asarray(w)))(jnp.asarray(x0)))
+            except Exception as e:  # noqa: BLE001
+                run_.violation(dict(key, what="raised"), {"exception": repr(e)[:300]})
+                continue
+            fdp = fd6(f, x0, 1e-3)
+            sc = 1 + maxabs(fdp)
+            if not np.all(np.isfinite(fwd)) or maxabs(fwd - fdp) > 5e-8 * sc:
+                run_.violation(dict(key, what="forward-mode coefficient derivative vs central differences at a vanishing eigenvalue"), {"err": maxabs(fwd - fdp), "scale": sc})
+            if not np.isfinite(gr) or abs(gr - float(np.sum(fdp * w))) > 5e-8 * (1 + np.sum(np.abs(w)) * maxabs(fdp)):
+                run_.violation(dict(key, what="reverse-mode coefficient derivative vs central differences at a vanishing eigenvalue"), {"grad": gr, "fd": float(np.sum(fdp * w))})
+
+
 def check_wave_and_guards(run_, ex, jnp, jax, rng):
     """Wave: linear 2-channel map with a guarded wavenumber norm; Leray / inverse Laplacian guards at |k| = 0."""
     for D, N in ((1, 12), (2, 6), (3, 4)):
@@ -331,6 +392,18 @@ def check_wave_and_guards(run_, ex, jnp, jax, rng):
         fdc = fd6(f_c, 1.3, 1e-3)
         if not np.all(np.isfinite(got)) or maxabs(got - fdc) > 1e-7 * (1 + maxabs(fdc)):
             run_.violation(dict(key, what="d/d(speed_of_sound) vs central differences"), {"err": maxabs(got - fdc)})
+        for lab, s0 in (("random", u), ("constant", np.ones_like(u)), ("zero", np.zeros_like(u))):
+            W = rng.standard_normal(u.shape)
+
+            def f_cs(c, D=D, N=N, s0=s0):
+                return ex.stepper.Wave(D, 3.0, N, 0.05, speed_of_sound=c)(jnp.asarray(s0))
+            fwd = np.asarray(jax.jvp(f_cs, (jnp.asarray(1.3),), (jnp.asarray(1.0),))[1])
+            gr = float(jax.grad(lambda c: jnp.sum(f_cs(c) * jnp.asarray(W)))(jnp.asarray(1.3)))
+            if not np.isfinite(gr) or abs(gr - float(np.sum(fwd * W))) > 1e-9 * (1 + abs(gr) + np.sum(np.abs(W)) * maxabs(fwd)):
+                run_.violation(dict(key, what=f"reverse-mode d/d(speed_of_sound) != <w, jvp> ({lab} state)"), {"grad": gr, "fwd": float(np.sum(fwd * W))})
+            grr = np.asarray(jax.grad(lambda c: jnp.sum(ex.rollout(ex.stepper.Wave(D, 3.0, N, 0.05, speed_of_sound=c), 3)(jnp.asarray(s0)) ** 2))(jnp.asarray(1.3)))
+            if not np.all(np.isfinite(grr)):
+                run_.violation(dict(key, what=f"reverse-mode d/d(speed_of_sound) through a rollout not finite ({lab} state)"), {})
     for D, N in ((2, 6), (3, 4)):
         dop = ex.spectral.build_derivative_operator(D, 2.0, N)
         ler = ex.nonlin_fun.Leray(D, N, derivative_operator=dop)
@@ -350,9 +423,14 @@ def run(tier: str, seed: int) -> int:
     import jax.numpy as jnp
     import exponax as ex
     rng = np.random.default_rng(seed)
+    import time
+    tm = {}
+    t0 = time.time()
     for label, dn, terms in (QUICK if tier == "quick" else THOROUGH):
         res = run_diff_model(run_, dn, terms, label)
+        tm[f"tlc_{label}"] = round(time.time() - t0, 1)
         replay_nonlin(run_, res, ex, jnp, jax, rng)
+        tm[f"replay_{label}"] = round(time.time() - t0, 1)
         tlc.cleanup(res)
     tab = etdrk.run_model(run_)
     work = os.path.join(tlc.SCRATCH, f"c07lin.{os.getpid()}")
@@ -366,9 +444,16 @@ def run(tier: str, seed: int) -> int:
     tables, _ = linear.load(lres)
     tlc.cleanup(lres)
     shutil.rmtree(work, ignore_errors=True)
+    tm["models"] = round(time.time() - t0, 1)
     check_linear(run_, tables, ex, jnp, jax, rng, tier)
+    tm["linear"] = round(time.time() - t0, 1)
     check_semilinear(run_, tab, tables, ex, jnp, jax, rng, tier)
+    tm["semilinear"] = round(time.time() - t0, 1)
+    check_null_eigenvalues(run_, ex, jnp, jax, rng, tier)
+    tm["null"] = round(time.time() - t0, 1)
     check_wave_and_guards(run_, ex, jnp, jax, rng)
+    tm["wave"] = round(time.time() - t0, 1)
+    run_.extra["cumulative_wall_s"] = tm
     tlc.cleanup_mine()
     run_.rule = ("jvp cases: one per terminal MC_Diff state (term, D, N, primal = sum of basis functions, tangent = basis function); linear cases: (class, "
                  "argument variant, D, N) x {state, dt, every coefficient}; semi-linear cases: (class, order) x {state (tangent-linear ETDRK of the "
